@@ -115,9 +115,14 @@ func (w *pnftWalker) walk(fn *ssa.Function, o *Origin, cond *Formula, depth int,
 		sub := NewOrigin(w.p, callee)
 		sub.site = o.site + w.p.Pos(c.Pos()) + ">"
 		sub.depth = o.depth
+		actuals := cc.Args
+		if cc.IsInvoke() {
+			// devirtualised interface call: the receiver is not part of Args
+			actuals = append([]ssa.Value{cc.Value}, cc.Args...)
+		}
 		for i, prm := range callee.Params {
-			if i < len(cc.Args) {
-				sub.env[prm] = o.argAt(cc.Args[i], c)
+			if i < len(actuals) {
+				sub.env[prm] = o.argAt(actuals[i], c)
 			}
 		}
 		w.walk(callee, sub, here, depth+1, append(append([]string(nil), chain...), FuncName(fn)))
